@@ -30,7 +30,7 @@ pub struct Base {
 fn bases() -> Result<Vec<Base>, String> {
     let mut out = vec![];
     // (1) fresh chain, block with golden ticket, routed fee-paying tx and two more payments
-    for (name, g, depth) in [("fresh-4tx", 10u64, 1usize), ("wrapped-atr", 3, 5), ("fresh-zero-fee-routed", 10, 2)] {
+    for (name, g, depth) in [("fresh-4tx", 10u64, 1usize), ("wrapped-atr", 3, 5), ("fresh-zero-fee-routed", 10, 2), ("fresh-nft-mint", 10, 1)] {
         let mut w = super::c01::positions(&crate::report::Tier { thorough: false, seed: 0 })?.remove(0).w;
         if g == 3 {
             w = World::new(crate::seams::Cfg::new(3, crate::factory::HEARTBEAT));
@@ -57,6 +57,25 @@ fn bases() -> Result<Vec<Base>, String> {
         c.data = b"payload-of-c".to_vec();
         c.sign(&k3.private);
         txs.push(c);
+        if name == "fresh-nft-mint" {
+            // K2 mints an NFT from its last output: outputs Bound(1), Normal(deposit), Bound(0), change
+            use saito_core::core::consensus::slip::{Slip, SlipType};
+            let input = w.ledgers[t].unspent_of(&k2.public).into_iter().max_by_key(|s| s.amount).ok_or("k2 second")?;
+            let mut inp = input.clone();
+            inp.generate_utxoset_key();
+            let mut m = Transaction::default();
+            m.transaction_type = TransactionType::Bound;
+            m.timestamp = ts + 5;
+            m.add_from_slip(inp.clone());
+            m.add_to_slip(Slip { public_key: k2.public, amount: 1, slip_type: SlipType::Bound, ..Default::default() });
+            m.add_to_slip(Slip { public_key: k1.public, amount: 4_000, ..Default::default() });
+            m.add_to_slip(Slip { public_key: saito_core::core::consensus::wallet::Wallet::create_nft_uuid(&inp, "art"), amount: 0, slip_type: SlipType::Bound, ..Default::default() });
+            m.add_to_slip(Slip { public_key: k2.public, amount: input.amount - 4_000, ..Default::default() });
+            m.sign(&k2.private);
+            // the second payment of this base spends K2's first output; keep only one K2 spender per output
+            txs.retain(|t| !t.from.iter().any(|s| s.get_utxoset_key() == inp.get_utxoset_key()));
+            txs.push(m);
+        }
         // a foreign valid transaction (second output of K3) not in the block
         let s2 = w.ledgers[t].unspent_of(&k3.public).into_iter().last().ok_or("k3 second")?;
         let foreign = w.spend(&s2, &k3, &k2.public, 123, 0, ts + 9);
@@ -365,6 +384,11 @@ pub fn main(tier: Tier, _replay: Option<String>) -> i32 {
     rep.bounds = json!({"bases": bs.iter().map(|b| b.name.clone()).collect::<Vec<_>>(), "gates": ["add_block", "verify_block(advertised id/hash) then add_block"]});
     rep.assumptions = vec!["variants whose hash differs from the original are different blocks and are not judged here".into()];
     for base in bs.iter() {
+        if let Ok(only) = std::env::var("VERIF_C06_BASE") {
+            if base.name != only {
+                continue;
+            }
+        }
         let mut vs = variants(base);
         if let Ok(f) = std::env::var("VERIF_C06_ONLY") {
             vs.retain(|v| v.label.contains(&f) || v.label == "original");
